@@ -427,8 +427,9 @@ func parseString(l *syntax.Lexer) (syntax.Token, error) {
 				l.Next()
 			}
 			l.Lines = append(l.Lines, syntax.LineInfo{
-				Indents:  0,
-				StartIdx: l.GetCursor() + 1,
+				Indents:   0,
+				StartIdx:  l.GetCursor() + 1,
+				Continued: true,
 			})
 			// add literal (for CR/LF only, append oneChar; for CR+LF, append LF)
 			literal = append(literal, l.GetCurrentChar())
@@ -614,8 +615,9 @@ func parseComment(l *syntax.Lexer) (bool, syntax.Token, error) {
 					l.Next()
 				}
 				l.Lines = append(l.Lines, syntax.LineInfo{
-					Indents:  0,
-					StartIdx: l.GetCursor() + 1,
+					Indents:   0,
+					StartIdx:  l.GetCursor() + 1,
+					Continued: true,
 				})
 			case LeftDoubleQuoteI:
 				if multiCommentType == commentTypeQuoteI {
